@@ -31,6 +31,25 @@ def raw_case(mn, optext, tag):
     return Case([v, l1, s, l2], focus=3, tag=tag)
 
 
+def same_text_cases(rnd, bad, good, n):
+    by_text = {}
+    for g in good:
+        by_text.setdefault(asmio.roperand(g), []).append(g)
+    pool = [b for b in bad if asmio.roperand(b) in by_text]
+    rnd.shuffle(pool)
+    cases = []
+    for b in pool[:n]:
+        g = rnd.choice(by_text[asmio.roperand(b)])
+        l1 = asmio.stmt("NOP", label="L1")
+        l2 = asmio.stmt("NOP", label="L2")
+        if rnd.random() < 0.75:
+            cases.append(Case([l1, dict(g), dict(b), l2], focus=3, tag="invalid-after-valid"))
+        else:
+            g2 = rnd.choice(by_text[asmio.roperand(b)])
+            cases.append(Case([l1, dict(g), dict(g2), l2], focus=3, tag="valid-after-valid"))
+    return cases
+
+
 def run(ctx):
     thorough = ctx.tier == "thorough"
     rnd = random.Random(ctx.seed * 104729 + 12)
@@ -41,6 +60,9 @@ def run(ctx):
     # (a) spec -> code: the property's list of ill-typed forms expanded over every mnemonic row (must be rejected)
     step = 1 if thorough else 2
     asmcheck.run_suite(ctx, "illtyped-table", [framed(s, "invalid") for s in bad[rnd.randrange(step)::step]])
+    # the same OPERAND TEXT first on a mnemonic where it is valid, then on the one where it is not (and the other way round): whether a statement is
+    # accepted depends on its own mnemonic, not on what an earlier statement with the same operand text was (memo tables keyed by the operand text)
+    asmcheck.run_suite(ctx, "same-operand-text-after-valid", same_text_cases(rnd, bad, good, 20000 if thorough else 3000))
     # every VALID cell of the table too: what is accepted decodes as one instruction and fills exactly the space the listing reserves
     good, _w = asmgen.table(ctx.tier, "valid")
     asmcheck.run_suite(ctx, "valid-cells", [framed(s, "cell") for s in asmgen.every_cell(good, rnd)])
